@@ -174,7 +174,12 @@ func decode8BitAsciiLatin1(b []byte, c int) (string, int, error) {
 		return "", 0, fmt.Errorf("expected %v bytes, got %v", c, len(b))
 	}
 
-	// can convert straight into a string as the encoding's range is
-	// identical to UTF-8
-	return string(b[:c]), c, nil
+	// Latin-1 code points are the first 256 Unicode code points, but only
+	// the ASCII half has the same byte representation in UTF-8, so convert
+	// via runes rather than reinterpreting the bytes
+	runes := make([]rune, c)
+	for i := range runes {
+		runes[i] = rune(b[i])
+	}
+	return string(runes), c, nil
 }
